@@ -166,6 +166,7 @@ pub(crate) mod verif_sys {
             #[kani::stub(ResourceNode::max_avg, stub_max_avg)]
             #[kani::stub(crate::core::system_metric::current_load, stub_load)]
             #[kani::stub(crate::core::system_metric::current_cpu_usage, stub_cpu)]
+            #[kani::stub(std::string::String::new, vs::string_new_runtime)]
             fn $name() {
                 $body
             }
